@@ -97,6 +97,7 @@ def run(prop, tier, seed):
         if proof_broken and not bad and tier == 'quick':
             # a proof obligation or tie no longer checks: search harder for a failing input
             log(f'{prop}: obligations broken ({broken or dirty or hyg}); searching at the thorough budget')
+            os.environ['VERIF_SHARD_TIMEOUT'] = str(max(3600, int(os.environ.get('VERIF_SHARD_TIMEOUT', '0') or 0)))
             cases = mod.cases('thorough', seed)
             bad, nshards, coq_secs = evaluate(mod, cases, workdir)
             searched_tier = 'thorough'
